@@ -205,7 +205,8 @@ def render_v2000(M, rng, perm=None, opts=None):
          "zeros": rng.random() < 0.25, "dt": rng.random() < 0.5, "isodt": rng.random() < 0.3, "extra": rng.random() < 0.3,
          "lists": rng.random() < 0.2, "trail": rng.random() < 0.25, "order": rng.choice(["cri", "irc", "mixed"])}
     o.update(opts or {})
-    lines = ["", "  SPEC      0101000000", ""]
+    lines = [rng.choice(["", "ethanol V2000", "exported as V3000", "converted from V3000 to V2000", "M  END", "name"]), "  SPEC      0101000000",
+             rng.choice(["", "checked V2000", "M  CHG  1   1   1", "comment"])]
     alist = ["  1 F    2   6   7", "  1 T    1   8"] if o["lists"] else []
     # counts line aaabbblllfffcccsssxxxrrrpppiiimmmvvvvvv: chiral flag 0 / 1, obsolete fields anything, no Stext entries
     lines.append(f"{n:3d}{len(M['bonds']):3d}{len(alist):3d}  0{rng.choice([0, 0, 1]):3d}  0{rng.choice([0, 0, 2]):3d}{rng.choice([0, 0, 1]):3d}{rng.choice([0, 0, 3]):3d}{rng.choice([0, 0, 1]):3d}999 V2000")
